@@ -291,6 +291,12 @@ pub fn model_pool(tier: Tier) -> Vec<(String, Vec<u8>)> {
         out.push((format!("C06:{}", c.desc), c.spec.to_bytes()));
     }
     out.push(("bfs:tags2".into(), crate::bfs::model_tags2().to_bytes()));
+    for (d, spec) in crate::c01::edge_family().into_iter().step_by(tier.pick(5, 1)) {
+        out.push((d, spec.to_bytes()));
+    }
+    for (d, spec) in crate::c06::zero_tag_family().into_iter().step_by(tier.pick(7, 2)) {
+        out.push((d, spec.to_bytes()));
+    }
     match std::fs::read("/repo/resources/model.bin") {
         Ok(b) => out.push(("resources/model.bin".into(), b)),
         Err(e) => machinery_error(&format!("/repo/resources/model.bin: {e}")),
